@@ -83,7 +83,10 @@ let run path =
       "c07_pubrel_answered", ConnSpec.c07_pubrel_answered;
       "c08_store_before_send", ConnSpec.c08_store_before_send; "c08_kept_until_acked", ConnSpec.c08_kept_until_acked;
       "c08_resend", ConnSpec.c08_resend; "c08_no_second_new", ConnSpec.c08_no_second_new;
-      "c16_bound", ConnSpec.c16_bound; "c12_will", ConnSpec.c12_will ] in
+      "c16_bound", ConnSpec.c16_bound; "c12_will", ConnSpec.c12_will;
+      "c15_in_order", ConnSpec2.c15_in_order; "c15_release_intact", ConnSpec2.c15_release_intact;
+      "c15_resend_order", ConnSpec2.c15_resend_order; "c15_dequeue_order", ConnSpec2.c15_dequeue_order;
+      "c14_lifecycle", ConnSpec2.c14_lifecycle ] in
     L.iter (fun (name, f) ->
       if not (f pevs) then begin
         (* shortest failing prefix = position of the offending event *)
